@@ -261,10 +261,11 @@ impl HCtx {
                 if gate.st.lock().unwrap().finished.contains(&i) { continue; }
                 gate.note(|g| { g.hold_calls.insert(i); });
                 let before_i = ended(&gate.st.lock().unwrap(), i);
-                gate.grant(i);
-                // let i pass k storage calls, then hold it before the next one
+                // let i pass k storage calls, then hold it before the next one (the arrival count is
+                // read BEFORE i is let go, or its first arrival could be missed)
                 let arrivals = |g: &GateState| *g.arrive_call.get(&i).unwrap_or(&0);
                 let base = arrivals(&gate.st.lock().unwrap());
+                gate.grant(i);
                 let mut stopped = true;
                 for step in 0..=k {
                     // wait for the (step+1)-th arrival at a storage call of this transaction
@@ -290,8 +291,17 @@ impl HCtx {
                     if !gate.wait(20_000, |g| ended(g, i) > before_i) { notes.push(format!("HANG:t{i}")); }
                     if !gate.wait(20_000, |g| ended(g, j) > bj || g.finished.contains(&j)) { notes.push(format!("HANG:t{j}-after-wait")); }
                 } else {
-                    gate.note(|g| { g.hold_calls.remove(&i); });
-                    gate.grant(i);
+                    // release i only if it is parked at a storage call: a grant handed to a thread
+                    // whose transaction is already over would let its NEXT transaction through
+                    // unscheduled
+                    let mut parked = false;
+                    gate.note(|g| {
+                        g.hold_calls.remove(&i);
+                        parked = g.waiting_call.contains(&i);
+                    });
+                    if parked {
+                        gate.grant(i);
+                    }
                     let _ = gate.wait(20_000, |g| ended(g, i) > before_i || g.finished.contains(&i));
                 }
             } else {
